@@ -14,19 +14,6 @@ def gen(rng, tier):
             else: G = common.mk_graph(n, [(i, i + 1, rng.randint(1, 3)) for i in range(n - 1)], rng)
             fam = kind
         else: G, fam = common.random_connected_graph(rng, 1, 5 if tier == "quick" else 6)
-        if rng.random() < 0.07:
-            # per-sink searches whose candidate lists are LONG (> 100 multisets at the deciding size): only the per-sink entry points are run on these
-            kind = rng.choice(["cycle15", "grid33", "k44", "k6", "dense7"])
-            if kind == "cycle15": n = rng.randint(15, 16); G = common.mk_graph(n, [(i, (i + 1) % n, 1) for i in range(n)], rng); qm = 2
-            elif kind == "grid33": G = common.mk_graph(9, [(3 * r + c, 3 * r + c + 1, 1) for r in range(3) for c in range(2)] + [(3 * r + c, 3 * r + c + 3, 1) for r in range(2) for c in range(3)], rng); qm = 3
-            elif kind == "k44": G = common.mk_graph(8, [(a, 4 + b, 1) for a in range(4) for b in range(4)], rng); qm = 4
-            elif kind == "k6": G = common.mk_graph(6, [(a, b, 1) for a in range(6) for b in range(a + 1, 6)], rng); qm = None
-            else:
-                e = {(a, b): rng.choice([1, 1, 2]) for a in range(7) for b in range(a + 1, 7) if rng.random() < 0.75}
-                for v in range(1, 7): e.setdefault((v - 1, v), 1)
-                G = common.mk_graph(7, [(a, b, k) for (a, b), k in sorted(e.items())], rng); qm = 4
-            out.append({"G": G, "fam": "bigsink-" + kind, "only_ps": True, "q": rng.randrange(G["n"]), "qmax": qm, "s": rng.randrange(1 << 30), "maxg": None, "P": [0] * G["n"], "v": 0, "grow": None})
-            continue
         n = G["n"]
         P = [0] * n
         for _ in range(rng.randint(1, 4)): P[rng.randrange(n)] += 1
@@ -34,6 +21,32 @@ def gen(rng, tier):
                     "qmax": rng.choice([None, None, 0, 1, 2, n]), "s": rng.randrange(1 << 30),
                     "grow": ([rng.randrange(n), rng.randrange(n), rng.randint(1, 2)] if n >= 2 and rng.random() < 0.4 else None)})
         if out[-1]["grow"] and out[-1]["grow"][0] == out[-1]["grow"][1]: out[-1]["grow"] = None
+    # appended families (own generator state: extending them never shifts the random stream of the cases above)
+    r2 = random.Random(rng.randrange(1 << 30))
+    for i in range(10 if tier == "quick" else 60):
+        # per-sink searches whose candidate lists are LONG (> 100 multisets at the deciding size): only the per-sink entry points are run on these
+        kind = ["cycle15", "grid33", "k44", "k6", "dense7"][i % 5]
+        if kind == "cycle15": n = r2.randint(15, 16); G = common.mk_graph(n, [(i, (i + 1) % n, 1) for i in range(n)], r2); qm = 2
+        elif kind == "grid33": G = common.mk_graph(9, [(3 * r + c, 3 * r + c + 1, 1) for r in range(3) for c in range(2)] + [(3 * r + c, 3 * r + c + 3, 1) for r in range(2) for c in range(3)], r2); qm = 3
+        elif kind == "k44": G = common.mk_graph(8, [(a, 4 + b, 1) for a in range(4) for b in range(4)], r2); qm = 4
+        elif kind == "k6": G = common.mk_graph(6, [(a, b, 1) for a in range(6) for b in range(a + 1, 6)], r2); qm = None
+        else:
+            e = {(a, b): r2.choice([1, 1, 2]) for a in range(7) for b in range(a + 1, 7) if r2.random() < 0.75}
+            for v in range(1, 7): e.setdefault((v - 1, v), 1)
+            G = common.mk_graph(7, [(a, b, k) for (a, b), k in sorted(e.items())], r2); qm = 4
+        out.append({"G": G, "fam": "bigsink-" + kind, "only_ps": True, "q": r2.randrange(G["n"]), "qmax": qm, "s": r2.randrange(1 << 30), "maxg": None, "P": [0] * G["n"], "v": 0, "grow": None})
+    for i in range(40 if tier == "quick" else 400):
+        # placements STACKED on a vertex of large valence next to emptier, lower-valence vertices (irregular graphs: hubs, wheels, random), with a stack
+        # between the smallest neighbouring valence and the hub's own valence; and stacked placements on the support {v, v+1} the batch also asks about
+        G, fam = common.random_connected_graph(r2, 4, 6); n = G["n"]; M = common.matrix(G); val = [sum(r) for r in M]
+        P = [0] * n; u = max(range(n), key=lambda v: (val[v], r2.random()))
+        if i % 2 == 0:
+            nb = [val[w] for w in range(n) if M[u][w]]; lo = min(nb) if nb else 1
+            P[u] = r2.randint(min(lo, max(1, val[u] - 1)), max(1, val[u] - 1)); v = r2.choice([w for w in range(n) if w != u])
+            if r2.random() < 0.4: P[r2.randrange(n)] += 1
+        else:
+            v = r2.randrange(n); P[v] = r2.randint(1, 3); P[(v + 1) % n] = r2.randint(1, 3)
+        out.append({"G": G, "fam": "stack-" + fam, "maxg": None, "P": P, "v": v, "q": r2.randrange(n), "qmax": r2.choice([None, 1, 2]), "s": r2.randrange(1 << 30), "grow": None})
     return out
 def impl(c):
     from chipfiring.CFGonality import gonality, play_gonality_game, CFGonality
@@ -74,6 +87,7 @@ def _battery(c, G, g, names, idx):
     out["ps_single"] = bool(alg.test_strategy(list(st)))
     out["ps_batch"] = [bool(x) for x in alg.test_strategy_batch([list(alt), list(st), list(reversed(st)), list(alt)])]
     out["ps_single_again"] = bool(alg.test_strategy(list(reversed(st))))
+    out["ps_stack"] = [bool(x) for x in alg.test_strategy_batch([[names[c["v"]]] * k for k in (1, 2, 3, 2, 1)])]       # same support, different multiplicities, one cache
     kk = 1 + (c["v"] + c["q"]) % max(1, n)       # a suspected gonality in 1..n
     vb = CFGonality(g).verify_gonality_bounds(kk); out["verify_bounds"] = [kk, bool(vb[0]), bool(vb[1])]
     ba = batch_gonality_analysis([(g, names[c["q"]])], c["qmax"]); r0 = list(ba.values())[0]
@@ -85,7 +99,9 @@ def model_lines(c):
     alt = [0] * n
     for j in range(min(2, n)): alt[(c["v"] + j) % n] += 1
     return [["gon"] + g + [mg, 1], ["gon"] + g + [mg, 0], ["game"] + g + common.enc_list(c["P"]) + [c["v"]], ["strat"] + g + common.enc_list(c["P"]), ["persink"] + g + [c["q"], qm],
-            ["game"] + g + common.enc_list(c["P"]) + [c["q"]], ["game"] + g + common.enc_list(alt) + [c["q"]], ["gon"] + g + [n, 0]]
+            ["game"] + g + common.enc_list(c["P"]) + [c["q"]], ["game"] + g + common.enc_list(alt) + [c["q"]], ["gon"] + g + [n, 0]] + \
+           [["game"] + g + common.enc_list([k * (i == c["v"]) for i in range(n)]) + [c["q"]] for k in (1, 2, 3)]
+NBASE = 11
 def _strats(tok, n):
     k = int(tok[0]); cnt = int(tok[1]); xs = [int(x) for x in tok[2:]]
     return k, [xs[i * n:(i + 1) * n] for i in range(cnt)]
@@ -114,6 +130,9 @@ def judge(c, r, mo):
         gt = int(mo[7][0]); kk = o["verify_bounds"][0]
         if o["verify_bounds"][1:] != [gt <= kk, kk <= 1 or gt >= kk]: out.append({"what": "verify_gonality_bounds(%d) = %s on a graph of gonality %d (expected %s)" % (kk, o["verify_bounds"][1:], gt, [gt <= kk, kk <= 1 or gt >= kk])})
         if o["ps_analysis"] != [pk, pS]: out.append({"what": "batch_gonality_analysis = %s, model %s" % (o["ps_analysis"], [pk, pS])})
+        if "ps_stack" in o:
+            w = [mo[8 + k][0] == "1" for k in range(3)]; exp = [w[0], w[1], w[2], w[1], w[0]]
+            if o["ps_stack"] != exp: out.append({"what": "test_strategy_batch on 1, 2, 3, 2, 1 chips stacked at vertex %d (q=%d) = %s, winnability of the placements minus q is %s" % (c["v"], c["q"], o["ps_stack"], exp)})
     return out[:2]
 TWO_STAGE = True
 _ml = model_lines
@@ -133,9 +152,9 @@ def model_lines(c, r):
     return ls
 _j = judge
 def _j2(c, o, mo, tag):
-    out = _j(c, {"ok": o}, mo[:8])
+    out = _j(c, {"ok": o}, mo[:NBASE])
     if not out:
-        for line in mo[8:]:
+        for line in mo[NBASE:]:
             if line[0] != "1": out.append({"what": "a reported winning strategy does not beat every opponent vertex (model strategy test: %s)" % line})
     for x in out: x["what"] = tag + x["what"]
     return out
@@ -194,6 +213,9 @@ def _oracle1(c, o):
         if o["ps_single"] != wP or o["ps_single_again"] != wP: why.append("test_strategy(P=%s, q=%d) = %s / %s, winnability of P - q is %s" % (P, q, o["ps_single"], o["ps_single_again"], wP))
         if o["ps_batch"] != [wA, wP, wP, wA]: why.append("test_strategy_batch = %s, by definition %s" % (o["ps_batch"], [wA, wP, wP, wA]))
         if o["ps_analysis"] != exp: why.append("batch_gonality_analysis = %s, truth %s" % (o["ps_analysis"], exp))
+        if "ps_stack" in o:
+            w = [O.winnable(m, [k * (i == c["v"]) - (i == q) for i in range(n)]) for k in (1, 2, 3)]
+            if o["ps_stack"] != [w[0], w[1], w[2], w[1], w[0]]: why.append("test_strategy_batch on stacked placements = %s, by definition %s" % (o["ps_stack"], [w[0], w[1], w[2], w[1], w[0]]))
         kk = o["verify_bounds"][0]; gt = O.gonality(m, n)
         if o["verify_bounds"][1:] != [gt <= kk, kk <= 1 or gt >= kk]: why.append("verify_gonality_bounds(%d) = %s on a graph of gonality %d" % (kk, o["verify_bounds"][1:], gt))
     return {"violates": bool(why), "why": why}
